@@ -326,3 +326,86 @@ def rows_match_fn(text):
     loop = "  for k_ in 0..%s.len()\n%s\n  {\n    let (%s, %s) = (&%s[k_].0, &%s[k_].1);\n    %s;\n    %s\n" % (xs, inv, a_, b_, xs, xs, ";\n    ".join(stmts), tail)
     return ("fn rows_match(lhs: &MechTable, lhs_row: usize, rhs: &MechTable, rhs_row: usize, %s: &Vec<(u64, u64)>) -> (res: bool)\n"
             "  ensures res == (forall|k: int| 0 <= k < %s@.len() ==> %s),\n{\n" % (xs, xs, EQ % ("k", "k")) + loop + "\n}\n")
+
+
+# ---------------------------------------------------------------------------------------------------------------------
+# the row builders: merge_rows (whole) and the padded row of an unmatched rhs row
+def _row_model():
+    import os
+    return open(os.path.join(os.path.dirname(os.path.dirname(os.path.abspath(__file__))), "contracts", "C18", "rowmodel.rs")).read()
+
+
+CELL_PAT = r"(\w+)\s*\.data\s*\.get\(\s*(\w+)\s*\)\s*\.map\(\s*\|\(_,\s*col\)\|\s*col\.index1d\(\s*(\w+)\s*\)\s*\)\s*\.unwrap_or\(\s*Value::Empty\s*\)"
+
+
+def _row_rewrite(b, fname):
+    """B1 `T.data.get(ID).map(|(_, col)| col.index1d(ROW)).unwrap_or(Value::Empty)` -> `cell(T, ID, ROW)`
+       B2 `for (ID, _) in T.data.iter() {` -> `let mut i_ = 0; while i_ < T.data.len() { let ID = &T.data[i_]; i_ += 1;` (a `while`, because the bodies use `continue`)
+       B3 `common_cols.iter().find(|(l, _)| l == lhs_id)` with the pattern `Some((_, rhs_id))` -> `find_common(common_cols, lhs_id)` with `Some(rhs_id)`"""
+    b = re.sub(r"//[^\n]*", "", b).replace("\r", "")
+    b = re.sub(CELL_PAT, r"cell(\1, \2, \3)", b)
+    b = re.sub(r"if\s+let\s+Some\(\(_,\s*(\w+)\)\)\s*=\s*common_cols\.iter\(\)\.find\(\s*\|\(l,\s*_\)\|\s*l\s*==\s*(\w+)\s*\)", r"if let Some(\1) = find_common(common_cols, \2)", b)
+    b = b.replace("cell(rhs, rhs_id, rhs_row)", "cell(rhs, RHS_ID_REF, rhs_row)")
+    return b
+
+
+MERGE_ENS = """  requires
+    // the rhs-only columns carry other names (ids) than the lhs columns
+    forall|i: int, j: int| 0 <= i < lhs.data@.len() && 0 <= j < rhs.data@.len() && !common_rhs@.contains(rhs.data@[j]) ==> lhs.data@[i] != rhs.data@[j],
+  ensures
+    // the row has the union of the columns: every lhs column, every rhs column that is not a common one
+    forall|c: u64| row@.contains_key(c) <==> (has(lhs.data@, c) || (has(rhs.data@, c) && !common_rhs@.contains(c))),
+    // lhs columns hold the lhs row's cells
+    forall|i: int| 0 <= i < lhs.data@.len() ==> row@[#[trigger] lhs.data@[i]] == cellv(lhs.id, lhs.data@[i], lhs_row),
+    // rhs-only columns hold the rhs row's cells -- and the EMPTY value precisely when there is no matching rhs row
+    forall|j: int| 0 <= j < rhs.data@.len() && !common_rhs@.contains(rhs.data@[j]) ==>
+      row@[#[trigger] rhs.data@[j]] == (if rhs_empty || rhs_row == 0 { Value::Empty } else { cellv(rhs.id, rhs.data@[j], rhs_row) }),
+"""
+
+
+def merge_rows_fn(text):
+    """`merge_rows` (whole body), rules B1-B2; `HashMap::new()` kept (vstd's std HashMap specification)"""
+    sig, body = extract_fn(text, "merge_rows")
+    if len(vlib.param_names(sig)) != 6:
+        raise AnchorLost("merge_rows: parameter list changed")
+    b = body[body.index("{") + 1:body.rindex("}")]
+    b = vlib.canon_bindings(sig, b, ["lhs", "lhs_row", "rhs", "rhs_row", "common_rhs", "rhs_empty"], ['row', 'lhs_id', 'value', 'col', 'rhs_id'])
+    b = _row_rewrite(b, "merge_rows").replace("RHS_ID_REF", "rhs_id")
+    INV_L = ("    invariant i_ <= lhs.data@.len(),\n"
+             "      forall|c: u64| row@.contains_key(c) <==> has(lhs.data@.subrange(0, i_ as int), c),\n"
+             "      forall|i: int| 0 <= i < i_ ==> row@[#[trigger] lhs.data@[i]] == cellv(lhs.id, lhs.data@[i], lhs_row),\n"
+             "    decreases lhs.data@.len() - i_,\n")
+    INV_R = ("    invariant j_ <= rhs.data@.len(),\n"
+             "      forall|i: int, j: int| 0 <= i < lhs.data@.len() && 0 <= j < rhs.data@.len() && !common_rhs@.contains(rhs.data@[j]) ==> lhs.data@[i] != rhs.data@[j],\n"
+             "      forall|c: u64| row@.contains_key(c) <==> (has(lhs.data@, c) || (has(rhs.data@.subrange(0, j_ as int), c) && !common_rhs@.contains(c))),\n"
+             "      forall|i: int| 0 <= i < lhs.data@.len() ==> row@[#[trigger] lhs.data@[i]] == cellv(lhs.id, lhs.data@[i], lhs_row),\n"
+             "      forall|j: int| 0 <= j < j_ && !common_rhs@.contains(rhs.data@[j]) ==> row@[#[trigger] rhs.data@[j]] == (if rhs_empty || rhs_row == 0 { Value::Empty } else { cellv(rhs.id, rhs.data@[j], rhs_row) }),\n"
+             "    decreases rhs.data@.len() - j_,\n")
+    GH_L = "proof { assert(forall|c: u64| has(lhs.data@.subrange(0, i_ as int), c) <==> (has(lhs.data@.subrange(0, i_ - 1), c) || c == lhs.data@[i_ - 1])) by { assert(lhs.data@.subrange(0, i_ as int) =~= lhs.data@.subrange(0, i_ - 1).push(lhs.data@[i_ - 1])); lemma_has_push(lhs.data@.subrange(0, i_ - 1), lhs.data@[i_ - 1]); } }"
+    GH_R = "proof { assert(forall|c: u64| has(rhs.data@.subrange(0, j_ as int), c) <==> (has(rhs.data@.subrange(0, j_ - 1), c) || c == rhs.data@[j_ - 1])) by { assert(rhs.data@.subrange(0, j_ as int) =~= rhs.data@.subrange(0, j_ - 1).push(rhs.data@[j_ - 1])); lemma_has_push(rhs.data@.subrange(0, j_ - 1), rhs.data@[j_ - 1]); } }"
+    b, n1 = re.subn(r"for\s+\(\s*lhs_id\s*,\s*_\s*\)\s+in\s+lhs\.data\.iter\(\)\s*\{", "let mut i_: usize = 0;\n    while i_ < lhs.data.len()\n" + INV_L + "    {\n        let lhs_id = &lhs.data[i_]; i_ += 1;\n        " + GH_L, b)
+    b, n2 = re.subn(r"for\s+\(\s*rhs_id\s*,\s*_\s*\)\s+in\s+rhs\.data\.iter\(\)\s*\{", "proof { assert(lhs.data@.subrange(0, lhs.data@.len() as int) =~= lhs.data@); }\n    let mut j_: usize = 0;\n    while j_ < rhs.data.len()\n" + INV_R + "    {\n        let rhs_id = &rhs.data[j_]; j_ += 1;\n        " + GH_R, b)
+    if n1 != 1 or n2 != 1:
+        raise AnchorLost("merge_rows: the two column loops not found")
+    if re.search(r"\b(iter\(\)|unwrap_or|index1d)\b", b):
+        raise AnchorLost("merge_rows: statements outside the transcription rules")
+    # the final expression `row`: the whole-range fact first
+    b = re.sub(r"\brow\s*$", "proof { assert(rhs.data@.subrange(0, rhs.data@.len() as int) =~= rhs.data@); }\n    row", b.rstrip())
+    LEMMA = """
+pub proof fn lemma_has_push(v: Seq<u64>, x: u64)
+  ensures forall|c: u64| has(v.push(x), c) <==> (has(v, c) || c == x),
+{
+  assert forall|c: u64| has(v.push(x), c) <==> (has(v, c) || c == x) by {
+    if has(v, c) { let i = choose|i: int| 0 <= i < v.len() && v[i] == c; assert(v.push(x)[i] == c); }
+    if c == x { assert(v.push(x)[v.len() as int] == c); }
+    if has(v.push(x), c) { let i = choose|i: int| 0 <= i < v.push(x).len() && v.push(x)[i] == c; if i < v.len() { assert(v[i] == c); } }
+  }
+}
+"""
+    return (LEMMA + "fn merge_rows(lhs: &MechTable, lhs_row: usize, rhs: &MechTable, rhs_row: usize, common_rhs: &HashSet<u64>, rhs_empty: bool) -> (row: HashMap<u64, Value>)\n"
+            + MERGE_ENS + "{\n" + b + "\n}\n")
+
+
+def merge_unit(text):
+    return ("use vstd::prelude::*;\nuse std::collections::{HashMap, HashSet};\nverus! {\nbroadcast use vstd::std_specs::hash::group_hash_axioms;\n"
+            + _row_model() + merge_rows_fn(text) + vlib.verus_canary("canary_merge", "x: u64", []) + "\n} // verus!\nfn main() {}\n")
